@@ -186,6 +186,10 @@ func (lm *levelManager) searchLowerBound(key types.Key) (types.Entry, bool) {
 		return types.Entry{}, false
 	}
 
+	// versions of a key may be spread over several sstables in any level,
+	// the newest version which is not greater than the target wins
+	var res types.Entry
+	var found bool
 	for level, tables := range lm.levels {
 		for e := tables.Front(); e != nil; e = e.Next() {
 			th := e.Value.(tableHandle)
@@ -205,13 +209,17 @@ func (lm *levelManager) searchLowerBound(key types.Key) (types.Entry, bool) {
 
 			// in this sstable, search according to data block
 			entry, ok := lm.fetchAndSearchLowerBound(key, level, th.levelIdx, dataBlockHandle)
-			if ok {
-				return entry, true
+			if !ok || !types.IsSameKey(key, entry.Key) {
+				// lower bound belongs to another key, search next one
+				continue
+			}
+			if !found || types.CompareKeys(entry.Key, res.Key) < 0 {
+				res, found = entry, true
 			}
 		}
 	}
 
-	return types.Entry{}, false
+	return res, found
 }
 
 // TODO: replace with iterator
